@@ -72,7 +72,10 @@ func (evidWorld) Gen(prop, tier string, idx int, r *Rng) *Trace {
 		case "garbage":
 			td.X = r.Bytes(r.Range(0, 40))
 		case "rawpayload":
-			td.X = [][]byte{{0x01}, {0xa0}, {0xf6}, {0xa1, 0x19, 0x01, 0x09, 0x63, 'a', ':', 'b'}, {0x80}, {0xa1, 0x0a}, {}}[r.Intn(7)]
+			td.X = [][]byte{{0x01}, {0xa0}, {0xf6}, {0xa1, 0x19, 0x01, 0x09, 0x63, 'a', ':', 'b'}, {0x80}, {0xa1, 0x0a}, {},
+				// a profile-1 map whose client id is a text string; a profile-2 map whose client id is a text string
+				{0xa2, 0x3a, 0x00, 0x01, 0x24, 0xf8, 0x61, 'x', 0x3a, 0x00, 0x01, 0x24, 0xf9, 0x19, 0x30, 0x00},
+				append(append([]byte{0xa2, 0x19, 0x01, 0x09, 0x78, 0x18}, psatoken.Profile2Name...), 0x19, 0x09, 0x5a, 0x61, 'x')}[r.Intn(9)]
 		}
 		cfg.Tokens = append(cfg.Tokens, td)
 	}
@@ -191,6 +194,9 @@ type envModel struct {
 	triple   string
 	replaced bool
 	relaxed  bool // a failed envelope decode happened: a genuine envelope may have been dropped
+	// what the covered payload decodes to, rendered at the moment the envelope
+	// was adopted (a string: immune to any later sharing between decoded objects)
+	payloadObs string
 }
 
 func (m *envModel) adopt(tok []byte) bool {
@@ -204,6 +210,13 @@ func (m *envModel) adopt(tok []byte) bool {
 	m.triple = p.tripleKey()
 	m.replaced = false
 	m.relaxed = false
+	m.payloadObs = safely(func() string {
+		dec, err := psatoken.DecodeClaimsFromCBOR(append([]byte{}, p.Payload...))
+		if err != nil {
+			return "undecodable"
+		}
+		return getterObs(dec)
+	})
 	return true
 }
 
@@ -251,7 +264,7 @@ func (evidWorld) Exec(prop string, t *Trace) *Result {
 		ret, snap []byte
 		at        int
 	}
-	var held []heldTok
+	var held, heldEnc []heldTok
 
 	for i, op := range t.Ops {
 		res.OpsRun++
@@ -493,6 +506,8 @@ func (evidWorld) Exec(prop string, t *Trace) *Result {
 							res.violate("C19", "binding-payload-undecodable", "", i, "Verify succeeded, claims are attached, but the covered payload does not decode (%v)", derr)
 						} else if a, b := getterObs(dec), getterObs(e.Claims); a != b {
 							res.violate("C19", "binding-mismatch", "", i, "Verify succeeded but attached claims differ from the covered payload:\n payload: %s\n attached: %s", a, b)
+						} else if model.payloadObs != "undecodable" && model.payloadObs != b {
+							res.violate("C19", "binding-mismatch", "", i, "Verify succeeded but attached claims differ from what the covered payload decoded to when the envelope was adopted (nothing replaced them since):\n then: %s\n now:  %s", model.payloadObs, b)
 						}
 					}
 				}
@@ -572,6 +587,11 @@ func (evidWorld) Exec(prop string, t *Trace) *Result {
 					if (e1 == nil) != (e2 == nil) || !bytes.Equal(b1, b2) {
 						res.violate("C08", "encgate-differs-from-plain-"+ser, "", i, "validate-and-encode (%s) differs from plain encode on valid claims: e1=%v e2=%v", ser, e1, e2)
 					}
+					if e1 == nil {
+						// the very slices handed out are kept and looked at again after every later step
+						heldEnc = append(heldEnc, heldTok{ret: b1, snap: append([]byte{}, b1...), at: i})
+						heldEnc = append(heldEnc, heldTok{ret: b2, snap: append([]byte{}, b2...), at: i})
+					}
 				}
 			}
 			res.logf("%d encgate %d v=%s", i, op.A, okOrErr(v))
@@ -585,6 +605,17 @@ func (evidWorld) Exec(prop string, t *Trace) *Result {
 			gateValid += gv
 		}
 		disarmCodec()
+		if c08 {
+			for _, h := range heldEnc {
+				if !bytes.Equal(h.ret, h.snap) {
+					res.violate("C08", "encoded-bytes-changed-by-later-call", "", i, "bytes returned by an encode call at step %d were modified by a later operation (so the validating encoder does not behave like its plain counterpart, whose results are independent)\n was: %x\n now: %x", h.at, h.snap, h.ret)
+					break
+				}
+			}
+			if len(heldEnc) > 2 {
+				res.Probes["held_encodings_rechecked"]++
+			}
+		}
 		if c19 {
 			for _, h := range held {
 				if !bytes.Equal(h.ret, h.snap) {
@@ -618,6 +649,67 @@ func poolShape(cfg *EvidCfg) string {
 		s += t.Kind + ","
 	}
 	return s
+}
+
+// pairGate compares one decoder with its validating twin on one byte string.
+func pairGate(res *Result, i int, name string, b []byte, d, dv func([]byte) (psatoken.IClaims, error)) (gateInvalid, gateValid int) {
+	defer func() {
+		if r := recover(); r != nil {
+			// panics are C05's to judge
+			res.Probes["gate_panic_skipped"]++
+		}
+	}()
+	c1, e1 := d(append([]byte{}, b...))
+	c2, e2 := dv(append([]byte{}, b...))
+	res.Evals++
+	if e1 != nil {
+		if e2 == nil {
+			res.violate("C08", "decgate-"+name+"-validating-accepts-undecodable", "", i, "the validating %s decoder succeeded where the plain one fails (%v); input %x", name, e1, head(b, 512))
+		}
+		return
+	}
+	if c1 == nil {
+		return
+	}
+	v := c1.Validate()
+	if v != nil {
+		gateInvalid++
+		if e2 == nil {
+			res.violate("C08", "decgate-"+name+"-accepts-invalid", "", i, "the validating %s decoder accepted claims whose Validate() fails (%v); input %x", name, v, head(b, 512))
+		} else if c2 != nil {
+			res.violate("C08", "decgate-"+name+"-returns-on-failure", "", i, "the validating %s decoder failed but returned claims", name)
+		}
+		return
+	}
+	gateValid++
+	if e2 != nil {
+		res.violate("C08", "decgate-"+name+"-rejects-valid", "", i, "the validating %s decoder rejected what the plain decoder + Validate() accept: %v; input %x", name, e2, head(b, 512))
+	} else if a, bb := fullObs(c1), fullObs(c2); a != bb {
+		res.violate("C08", "decgate-"+name+"-differs", "", i, "validating and plain %s decode disagree:\n %s\n %s", name, a, bb)
+	}
+	return
+}
+
+// allPairGates runs the three decoder pairs on one delivered byte string.
+func allPairGates(res *Result, i int, b []byte) (gateInvalid, gateValid int) {
+	coseD := func(x []byte) (psatoken.IClaims, error) {
+		e, err := psatoken.DecodeEvidenceFromCOSE(x)
+		if err != nil || e == nil {
+			return nil, err
+		}
+		return e.Claims, nil
+	}
+	coseDV := func(x []byte) (psatoken.IClaims, error) {
+		e, err := psatoken.DecodeAndValidateEvidenceFromCOSE(x)
+		if err != nil || e == nil {
+			return nil, err
+		}
+		return e.Claims, nil
+	}
+	a1, b1 := pairGate(res, i, "cose", b, coseD, coseDV)
+	a2, b2 := pairGate(res, i, "cbor", b, psatoken.DecodeClaimsFromCBOR, psatoken.DecodeAndValidateClaimsFromCBOR)
+	a3, b3 := pairGate(res, i, "json", b, psatoken.DecodeClaimsFromJSON, psatoken.DecodeAndValidateClaimsFromJSON)
+	return a1 + a2 + a3, b1 + b2 + b3
 }
 
 // decodeGates evaluates C08's decode-and-validate twins on one byte string.
